@@ -13,7 +13,7 @@ LEAN_HELPERS = ['MV.Lemmas.TransposeOps', 'MV.Lemmas.TransposeRender', 'MV.Lemma
                 'MV.Model.Types']
 DRIVERS = ['C04']
 GEN = ['Tables', 'Library']
-SRC_TIE = ['SrcTonality']   # py2lean source images proved equal to the model (MV/Props/Tie*.lean)
+SRC_TIE = ['SrcTonality', 'SrcOps']   # py2lean source images proved equal to the model (MV/Props/Tie*.lean)
 RULE = ('streams: ton = triples of tonalities (12 degrees x 9 modes x octaves -3..3, one third with un-normalised '
         'degrees -30..40): a+b, (a+b)+c, a+(b+c), a-b, ==, .b, .s; chord = chord % t, (chord % a) % b, Element % t, '
         'chord.o(k) on chords with every figure / modifiers / chord octave; score = score % t, score.o(k), '
